@@ -101,19 +101,20 @@ def fname(fn: FunctionInfo) -> str:
 
 
 class Analysis:
-    def __init__(self, idx: ProgramIndex, fn: FunctionInfo, operand: str, depth: int = 0):
+    def __init__(self, idx: ProgramIndex, fn: FunctionInfo, operand: str, depth: int = 0, extra_selfd: Optional[Set[str]] = None):
         self.idx = idx
         self.fn = fn
         self.operand = operand
         self.depth = depth
         self._callee_cache: Dict[tuple, bool] = {}
-        self.self_name = fn.params()[0]
+        self.self_name = fn.params()[0] if not fn.is_staticmethod() else "#no-self"
         self.cfg = CFG(fn)
         self.tainted: Set[str] = {operand}
-        self.selfd: Set[str] = set()
+        self.selfd: Set[str] = set(extra_selfd or ())  # parameters the caller binds to values derived from the operator
         self.shape_names: Set[str] = set()
         self._collect_shape_names()
         self._fix_names()
+        self._callee_cache.clear()
         self._collect_shape_names()
 
     # ------------------------------------------------------------------ name classification (flow-insensitive)
@@ -145,6 +146,7 @@ class Analysis:
         while changed and rounds < 20:
             changed = False
             rounds += 1
+            self._callee_cache.clear()  # verdicts computed with an incomplete set of operator-derived names are not kept
             guards = set(self.guard_nodes())
             for names, val, nid in assigns:
                 if self.is_selfd(val):
@@ -251,9 +253,9 @@ class Analysis:
             return self._callee_cache[key]
         self._callee_cache[key] = False
         callee = self.idx.resolve_method(self.fn.cls, m)
-        if callee is None or callee is self.fn or callee.is_staticmethod() or callee.is_property():
+        if callee is None or callee is self.fn or callee.is_property():
             return False
-        params = callee.params()[1:]
+        params = callee.params() if callee.is_staticmethod() else callee.params()[1:]
         bound = None
         for i, a in enumerate(c.args):
             if isinstance(a, ast.Name) and a.id in self.tainted and i < len(params):
@@ -264,8 +266,43 @@ class Analysis:
         if bound is None:
             return False
         actual, formal = bound
-        sub = Analysis(self.idx, callee, formal, depth=1)
+        # parameters of the helper that the call binds to values derived from the operator itself
+        extra: Set[str] = set()
+        for i, a_ in enumerate(c.args):
+            if i < len(params) and not self.mentions_taint(a_) and self.is_selfd(a_):
+                extra.add(params[i])
+        for k_ in c.keywords:
+            if k_.arg in params and not self.mentions_taint(k_.value) and self.is_selfd(k_.value):
+                extra.add(k_.arg)
+        callee_for_call = callee
+        if extra:
+            # parameters bound to operator-derived OBJECTS are not None at this call: fold `if p is None` accordingly
+            import copy as _copy
+            import dataclasses as _dc
+
+            class _Fold(ast.NodeTransformer):
+                def visit_If(self, node: ast.If):
+                    self.generic_visit(node)
+                    t = norm(node.test)
+                    for p_ in extra:
+                        if t == f"{p_} is None":
+                            return node.orelse or [ast.copy_location(ast.Pass(), node)]
+                        if t == f"{p_} is not None":
+                            return node.body
+                    return node
+
+            node2 = _Fold().visit(_copy.deepcopy(callee.node))
+            ast.fix_missing_locations(node2)
+            callee_for_call = _dc.replace(callee, node=node2)
+        sub = Analysis(self.idx, callee_for_call, formal, depth=1, extra_selfd=extra)
         guards = set(sub.guard_nodes())
+        # (a) the helper consumes the operand only inside checked contractions with operator-derived values (or behind its
+        #     own guards): nothing of the unchecked operand comes back
+        uses_ = sub.uses()
+        if all((set(sub.cfg.dominators(nid_)) | correlated_dominators(sub.cfg, nid_, set(callee.params()))) & guards
+               or not sub.cfg.reachable(nid_) for _n, _w, nid_ in uses_):
+            self._callee_cache[key] = True
+            return True
         if not guards:
             return False
         # type tests on the operand that dominate the call site, translated to the callee's parameter name
@@ -278,11 +315,23 @@ class Analysis:
                     pol = self.cfg.branch_taken(d, node.id)
                     if pol is not None:
                         import re as _re
-                        assumed[_re.sub(r"\b%s\b" % _re.escape(actual), formal, dn.label)] = pol
+                        lab = _re.sub(r"\b%s\b" % _re.escape(actual), formal, dn.label)
+                        while lab.startswith("not "):  # polarity-normal form: `not isinstance(x, T)` true == `isinstance(x, T)` false
+                            lab, pol = lab[4:].strip(), not pol
+                        if lab.startswith("(") and lab.endswith(")"):
+                            lab = lab[1:-1]
+                        assumed[lab] = pol
 
         def prune(a: int, b: int, pol):
             na = sub.cfg.nodes[a]
-            return na.kind == "test" and na.label in assumed and pol is not None and pol != assumed[na.label]
+            if na.kind != "test" or pol is None:
+                return False
+            lab = na.label
+            while lab.startswith("not "):
+                lab, pol = lab[4:].strip(), not pol
+            if lab.startswith("(") and lab.endswith(")"):
+                lab = lab[1:-1]
+            return lab in assumed and pol != assumed[lab]
 
         witness = sub.cfg.must_pass(lambda n: n.id in guards, prune=prune)
         self._callee_cache[key] = witness is None
